@@ -3,6 +3,7 @@ import HdVerif.Proofs.Aliasing
 import HdVerif.Model.VRGuards
 import HdVerif.Generated.T20uid
 import HdVerif.Generated.T20sites
+import HdVerif.Generated.T20ds
 import HdVerif.Model.AliasTables
 /-!
 # C20  Building objects never alters inputs and always yields valid files
@@ -235,6 +236,25 @@ theorem guard_sites_sound (site : String × String × String) (h : site ∈ guar
   · exact (guard_sound s).2.2.2 ha
 
 example : guardSites.length ≥ 30 := by decide
+
+/-! ### every value stored in a DS attribute is formatted -/
+
+/-- **ds_sites_formatted.**  At every assignment to an attribute of value representation DS in the package (table regenerated
+from all modules, 42 sites: window centers / widths, rescale parameters, spacings, positions, orientations, slide offsets, …) the
+value is obtained through the decimal-string formatter (`format_number_as_ds` / `DS(auto_format=True)`, element by element for
+multi-valued attributes), copied from the same attribute of another data set, or a short literal — never a raw float, whose
+`repr` may exceed the 16 characters a DS value may have.  (Failed on the pinned tree for `ParametricMap`'s slide origin.) -/
+theorem ds_sites_formatted (site : String × String) (h : site ∈ dsSites) :
+    site.2 = "formatted" ∨ site.2 = "copied" ∨ site.2 = "constant" := by
+  have hk : (dsSites.all fun x => x.2 == "formatted" || x.2 == "copied" || x.2 == "constant") = true := by decide
+  have := List.all_eq_true.mp hk site h
+  simp only [Bool.or_eq_true, beq_iff_eq] at this
+  rcases this with (h1 | h2) | h3
+  · exact Or.inl h1
+  · exact Or.inr (Or.inl h2)
+  · exact Or.inr (Or.inr h3)
+
+example : dsSites.length ≥ 40 := by decide
 
 /-! non-vacuity: the guards accept ordinary values and refuse the witnesses of the two repaired defects -/
 example : checkCodeString "DERIVED".toList = .ok () := by decide
